@@ -241,6 +241,18 @@ def run(ctx):
             ctx.check(len(pes) >= 1, "K4.predicate-site", "%s evaluates the predicate per element (%s)" % (name, cfg), "no per-element predicate evaluation", where=b.where(), fn=b.key)
             if not pes or not colls:
                 continue
+            # what each per-element evaluation is evaluated against
+            for sx in u.calls_to(roles.parsed_evaluate):
+                s2 = p.s2.get((sx.body.key, sx.bi))
+                if not s2 or not u.per_element(sx):
+                    continue
+                recv = s2.extra["receiver"]
+                if "RULE#1" in recv:
+                    ctx.check("DATA" not in s2.tags and s2.tags, "K5.predicate-sees-element", "%s: the predicate is evaluated against the element, not the outer data (%s)" % (name, cfg),
+                              "%s evaluates the predicate against a value with provenance %s" % (name, sorted(s2.tags)), where=sx.where(), fn=sx.body.key, nontrivial=True)
+                elif "RULE#0" in recv:
+                    ctx.check(set(s2.tags) == {"DATA"}, "K5.elements-against-outer-data", "%s: an element written as an expression is evaluated against the outer data (%s)" % (name, cfg),
+                              "%s evaluates a literal element against a value with provenance %s instead of the outer data" % (name, sorted(s2.tags)), where=sx.where(), fn=sx.body.key, nontrivial=True)
             # the fold (first per-element site in a non-short-circuit consumer defines the adaptor for the matrix)
             adaptors = []
             for ps, ps2 in pes:
